@@ -1,2 +1,370 @@
-// Package c02: correspondence harness for property C02 (stub — registers nothing yet).
+// Package c02: correspondence harness for property C02 — "a transition succeeds iff every critical task
+// acknowledged it". The real core runs in a child process against the whole-core simulator (harness/sim);
+// every case owns its world. Formats: see run.go.
 package c02
+
+import (
+	"fmt"
+	"strings"
+
+	"verifharness/fw"
+	"verifharness/rng"
+	"verifharness/sx"
+)
+
+var fastOutcomes = []string{"ok", "stay", "err"}
+var modes = []string{"direct", "basic", "fairmq"}
+var hosts = []string{"h1", "h2"}
+
+// legal successor events of an environment state
+var nextEvents = map[string][]string{
+	"CONFIGURED": {"START_ACTIVITY", "RESET"},
+	"RUNNING":    {"STOP_ACTIVITY"},
+	"DEPLOYED":   {"CONFIGURE"},
+}
+
+type genTask struct {
+	crit   bool
+	mode   string
+	host   string
+	launch string
+}
+
+func build(calls int, tasks []genTask, steps [][]string) string {
+	wf := sx.L(sx.A("wf"), sx.I(calls))
+	for _, t := range tasks {
+		wf.Add(sx.L(sx.B(t.crit), sx.A(t.mode), sx.A(t.host), sx.A(t.launch)))
+	}
+	n := sx.L(wf)
+	for _, s := range steps {
+		l := sx.L()
+		for _, a := range s {
+			l.Add(sx.A(a))
+		}
+		n.Add(l)
+	}
+	return n.String()
+}
+
+func okStep(ev string, n int) []string {
+	s := []string{ev}
+	for i := 0; i < n; i++ {
+		s = append(s, "ok")
+	}
+	return s
+}
+
+// path of all-ok steps that brings the environment to the point where `ev` can be requested for the k-th time
+var pathTo = map[string][]string{
+	"CONFIGURE@new":  {},
+	"START_ACTIVITY": {"CONFIGURE"},
+	"STOP_ACTIVITY":  {"CONFIGURE", "START_ACTIVITY"},
+	"RESET":          {"CONFIGURE"},
+	"CONFIGURE":      {"CONFIGURE", "RESET"},
+}
+
+var positions = []string{"CONFIGURE@new", "START_ACTIVITY", "STOP_ACTIVITY", "RESET", "CONFIGURE"}
+
+// at builds: all-ok path to `pos`, then the step with the given outcomes, then `tail` all-ok steps if it can go on.
+func at(pos string, tasks []genTask, outs []string, tail bool) string {
+	var steps [][]string
+	for _, ev := range pathTo[pos] {
+		steps = append(steps, okStep(ev, len(tasks)))
+	}
+	ev := strings.TrimSuffix(pos, "@new")
+	steps = append(steps, append([]string{ev}, outs...))
+	if tail {
+		st := map[string]string{"CONFIGURE": "CONFIGURED", "START_ACTIVITY": "RUNNING", "STOP_ACTIVITY": "CONFIGURED", "RESET": "DEPLOYED"}[ev]
+		steps = append(steps, okStep(nextEvents[st][0], len(tasks)))
+	}
+	return build(0, tasks, steps)
+}
+
+// exhaustiveFast: 1..2 tasks x every critical mix x every assignment of {ok, stay, err} at each of the five positions.
+func exhaustiveFast() []fw.Case {
+	var cs []fw.Case
+	for n := 1; n <= 2; n++ {
+		for cm := 0; cm < 1<<n; cm++ {
+			tasks := make([]genTask, n)
+			for i := range tasks {
+				tasks[i] = genTask{crit: cm>>i&1 == 1, mode: modes[(i+cm)%3], host: hosts[i%2], launch: "ok"}
+			}
+			total := 1
+			for i := 0; i < n; i++ {
+				total *= 3
+			}
+			for a := 0; a < total; a++ {
+				outs := make([]string, n)
+				x := a
+				for i := range outs {
+					outs[i] = fastOutcomes[x%3]
+					x /= 3
+				}
+				for _, pos := range positions {
+					cs = append(cs, fw.Case{Input: at(pos, tasks, outs, true), Tags: []string{"exhaustive-fast", "n=" + fmt.Sprint(n), pos}})
+				}
+			}
+		}
+	}
+	return cs
+}
+
+// slowCases: one commanded task does not answer (silent / dies) or cannot be reached (undeliv); each costs the core's
+// own response timeout (90 s, CONFIGURE 120 s) unless it is `undeliv` alone.
+func slowCases(r *rng.R, n int) []fw.Case {
+	var cs []fw.Case
+	fixed := []struct {
+		pos   string
+		tasks []genTask
+		outs  []string
+		tail  bool
+	}{
+		// critical silent among others / non-critical silent among others
+		{"START_ACTIVITY", []genTask{{true, "direct", "h1", "ok"}, {false, "basic", "h2", "ok"}}, []string{"silent", "ok"}, false},
+		{"START_ACTIVITY", []genTask{{true, "direct", "h1", "ok"}, {false, "basic", "h2", "ok"}}, []string{"ok", "silent"}, true},
+		{"STOP_ACTIVITY", []genTask{{true, "fairmq", "h1", "ok"}, {true, "direct", "h1", "ok"}, {false, "direct", "h2", "ok"}}, []string{"ok", "dies", "ok"}, false},
+		{"RESET", []genTask{{true, "direct", "h1", "ok"}, {false, "direct", "h1", "ok"}}, []string{"ok", "dies"}, true},
+		// alone
+		{"START_ACTIVITY", []genTask{{false, "direct", "h1", "ok"}}, []string{"silent"}, false},
+		{"STOP_ACTIVITY", []genTask{{true, "basic", "h2", "ok"}}, []string{"dies"}, false},
+		// inside NewEnvironment (CONFIGURE: 120 s)
+		{"CONFIGURE@new", []genTask{{true, "direct", "h1", "ok"}, {false, "basic", "h2", "ok"}}, []string{"ok", "silent"}, true},
+		{"CONFIGURE@new", []genTask{{true, "direct", "h1", "ok"}, {false, "basic", "h2", "ok"}}, []string{"dies", "ok"}, false},
+		// undeliverable: alone (fast), critical (fails anyway), non-critical with co-targets (their replies may be lost)
+		{"START_ACTIVITY", []genTask{{true, "direct", "h1", "ok"}}, []string{"undeliv"}, false},
+		{"START_ACTIVITY", []genTask{{false, "direct", "h1", "ok"}}, []string{"undeliv"}, false},
+		{"RESET", []genTask{{true, "direct", "h1", "ok"}, {true, "direct", "h2", "ok"}}, []string{"undeliv", "ok"}, false},
+		{"STOP_ACTIVITY", []genTask{{true, "direct", "h1", "ok"}, {false, "basic", "h2", "ok"}, {true, "fairmq", "h2", "ok"}}, []string{"ok", "undeliv", "ok"}, false},
+		// the watcher race: a critical task reports ERROR at once while another keeps the command waiting
+		{"START_ACTIVITY", []genTask{{true, "direct", "h1", "ok"}, {false, "direct", "h2", "ok"}}, []string{"err", "silent"}, false},
+	}
+	for i, f := range fixed {
+		if i >= n {
+			break
+		}
+		cs = append(cs, fw.Case{Input: at(f.pos, f.tasks, f.outs, f.tail), Tags: []string{"slow", f.pos}})
+	}
+	slow := []string{"silent", "dies", "undeliv"}
+	for i := len(fixed); i < n; i++ {
+		nt := r.Range(1, 4)
+		tasks := randTasks(r, nt)
+		outs := make([]string, nt)
+		for j := range outs {
+			outs[j] = "ok"
+			if r.P(1, 4) {
+				outs[j] = rng.Pick(r, fastOutcomes)
+			}
+		}
+		outs[r.N(nt)] = rng.Pick(r, slow)
+		pos := rng.Pick(r, positions[1:])
+		cs = append(cs, fw.Case{Input: at(pos, tasks, outs, true), Tags: []string{"slow", pos}})
+	}
+	return cs
+}
+
+func randTasks(r *rng.R, n int) []genTask {
+	tasks := make([]genTask, n)
+	for i := range tasks {
+		tasks[i] = genTask{crit: r.P(3, 5), mode: rng.Pick(r, modes), host: rng.Pick(r, hosts), launch: "ok"}
+	}
+	return tasks
+}
+
+// deployCases: what DEPLOY waits for.
+func deployCases(r *rng.R, n int) []fw.Case {
+	var cs []fw.Case
+	add := func(calls int, tasks []genTask) {
+		steps := [][]string{okStep("CONFIGURE", len(tasks)), okStep("START_ACTIVITY", len(tasks))}
+		cs = append(cs, fw.Case{Input: build(calls, tasks, steps), Tags: []string{"deploy"}})
+	}
+	for _, l := range []string{"dies", "silent", "nohost"} {
+		add(0, []genTask{{true, "direct", "h1", "ok"}, {false, "basic", "h2", l}})
+		add(0, []genTask{{true, "direct", "h1", l}, {false, "basic", "h2", "ok"}})
+	}
+	add(0, nil)                                       // no role at all
+	add(1, nil)                                       // call roles only: DEPLOY passes, CONFIGURE has nobody to talk to
+	add(1, []genTask{{true, "direct", "h1", "ok"}})   // a call role next to a task
+	add(0, []genTask{{false, "direct", "h1", "ok"}})  // only a non-critical task
+	add(0, []genTask{{false, "direct", "h1", "dies"}}) // …which fails to start
+	for len(cs) < n {
+		nt := r.Range(1, 4)
+		tasks := randTasks(r, nt)
+		tasks[r.N(nt)].launch = rng.Pick(r, []string{"dies", "silent", "nohost"})
+		add(r.N(2), tasks)
+	}
+	if len(cs) > n {
+		cs = cs[:n]
+	}
+	return cs
+}
+
+// randomWalk: 0..4 tasks, a legal walk of up to maxSteps requests with fast outcomes and idle deaths of non-critical
+// tasks; it ends at the first step in which a critical task is scripted to fail (the environment leaves the graph).
+func randomWalk(r *rng.R, maxSteps int) fw.Case {
+	nt := r.Range(1, 4)
+	tasks := randTasks(r, nt)
+	failP := r.Range(0, 3)
+	var steps [][]string
+	state := "DEPLOYED"
+	alive := make([]bool, nt)
+	for i := range alive {
+		alive[i] = true
+	}
+	tags := []string{"walk", fmt.Sprintf("n=%d", nt)}
+	ns := r.Range(1, maxSteps)
+	for len(steps) < ns {
+		if len(steps) > 0 && r.P(1, 8) {
+			// idle death of some non-critical task
+			s := []string{"DIE"}
+			any := false
+			for i := range tasks {
+				if !tasks[i].crit && alive[i] && r.P(1, 2) {
+					s = append(s, "dies")
+					alive[i] = false
+					any = true
+				} else {
+					s = append(s, "-")
+				}
+			}
+			if any {
+				steps = append(steps, s)
+				continue
+			}
+		}
+		ev := rng.Pick(r, nextEvents[state])
+		if len(steps) == 0 {
+			ev = "CONFIGURE"
+		}
+		s := []string{ev}
+		critFail := false
+		nAlive := 0
+		for i := range tasks {
+			o := "ok"
+			if r.P(failP, 10) {
+				o = rng.Pick(r, fastOutcomes[1:])
+			}
+			if alive[i] {
+				nAlive++
+				if o != "ok" && tasks[i].crit {
+					critFail = true
+				}
+			}
+			s = append(s, o)
+		}
+		steps = append(steps, s)
+		if critFail || nAlive == 0 {
+			break // the model and the core both stop here (or hang): nothing more to learn from this world
+		}
+		state = map[string]string{"CONFIGURE": "CONFIGURED", "START_ACTIVITY": "RUNNING", "STOP_ACTIVITY": "CONFIGURED", "RESET": "DEPLOYED"}[ev]
+	}
+	return fw.Case{Input: build(0, tasks, steps), Tags: tags}
+}
+
+func generate(tier string, r *rng.R) []fw.Case {
+	nSlow, nDeploy, nWalk, maxSteps := 13, 11, 120, 6
+	if tier == "thorough" {
+		nSlow, nDeploy, nWalk, maxSteps = 70, 40, 1500, 9
+	}
+	var cs []fw.Case
+	// slow ones first: they mostly sleep, the workers overlap them with everything else
+	cs = append(cs, slowCases(r.Fork(), nSlow)...)
+	cs = append(cs, deployCases(r.Fork(), nDeploy)...)
+	cs = append(cs, exhaustiveFast()...)
+	for i := 0; i < nWalk; i++ {
+		cs = append(cs, randomWalk(r.Fork(), maxSteps))
+	}
+	return cs
+}
+
+// nontrivial: at least one task, and either two requests were answered or some scripted outcome is not `ok`.
+func nontrivial(in, obs string) bool {
+	sc, err := parseScenario(in)
+	if err != nil || len(sc.tasks) == 0 {
+		return false
+	}
+	o, err := sx.Parse(obs)
+	if err != nil {
+		return false
+	}
+	if o.Len() >= 2 {
+		return true
+	}
+	for _, t := range sc.tasks {
+		if t.launch != "ok" {
+			return true
+		}
+	}
+	for _, s := range sc.steps {
+		for _, x := range s.outs {
+			if x != "ok" && x != "-" {
+				return true
+			}
+		}
+	}
+	return false
+}
+
+// shrink: drop the last step; drop one task (its column in every step).
+func shrink(in string) []string {
+	n, err := sx.Parse(in)
+	if err != nil || n.Len() < 1 {
+		return nil
+	}
+	var out []string
+	if n.Len() > 2 {
+		c := sx.L(n.List[:n.Len()-1]...)
+		out = append(out, c.String())
+	}
+	wf := n.At(0)
+	nt := wf.Len() - 2
+	for k := 0; k < nt && nt > 1; k++ {
+		w2 := sx.L(wf.List[:2]...)
+		for i := 0; i < nt; i++ {
+			if i != k {
+				w2.Add(wf.At(2 + i))
+			}
+		}
+		c := sx.L(w2)
+		for s := 1; s < n.Len(); s++ {
+			st := n.At(s)
+			s2 := sx.L(st.At(0))
+			for i := 0; i < nt; i++ {
+				if i != k {
+					s2.Add(st.At(1 + i))
+				}
+			}
+			c.Add(s2)
+		}
+		out = append(out, c.String())
+	}
+	return out
+}
+
+func init() {
+	fw.Register(&fw.Property{
+		ID:         "C02",
+		Generate:   generate,
+		RunImpl:    runScenario,
+		Nontrivial: nontrivial,
+		Rule: "per case one simulated world (real core in a child process, simulated Mesos master/executors/Consul/git): " +
+			"(a) 1..2 tasks x every critical mix x every assignment of {ok, error reply staying, error reply to ERROR} at each of 5 positions " +
+			"(CONFIGURE inside NewEnvironment, START, STOP, RESET, CONFIGURE through ControlEnvironment) — exhaustive; " +
+			"(b) random legal walks of up to 6 (thorough: 9) requests over 1..4 tasks on 1..2 hosts, modes direct/basic/fairmq, with idle deaths of non-critical tasks; " +
+			"(c) DEPLOY cases (task dies at launch / stays staging / has no host, empty workflow, call roles only); " +
+			"(d) a handful of cases with a silent / dying / unreachable task (each waits for the core's 90 s or 120 s response timeout). " +
+			"non-trivial = at least one task and (two answered requests or a scripted failure); distinct by input text",
+		Shrink:  shrink,
+		Workers: 40,
+		TrustedBase: []string{
+			"harness/sim: simulated Mesos master, agents, executors and tasks (scripted per command), Consul KV, git workflow repository; the core itself is the real one (core.RunForVerif in a child process, real gRPC API)",
+			"harness/props/c02/run.go: request driver and observation (gRPC status, reply state, GetEnvironments afterwards, MESSAGE calls seen by the master)",
+			"/repo/core/verif_hooks.go (core.RunForVerif) and the.SetEventWriterForVerif",
+		},
+		Assumptions: []string{
+			"wall-clock: a task that never answers is observed through the core's own response timeout (90 s; CONFIGURE 120 s) and deploy_timeout (8 s here); 'never returns' is observed as 'no answer for 22 s while the core lists the transition as in progress' on a path without timers",
+			"simulated executors stand in for o2-aliecs-executor (+ OCC/FairMQ tasks): they answer with the repository's own response types; fairmq-mode tasks are treated like direct ones",
+			"after a failed MESSAGE call (undeliverable) replies of the other targets may or may not arrive (the scheduler client drops its subscription): the driver accepts either, each being an instance of the model with those targets silent",
+			"who gets the transition mutex first after a failed slow transition (the environment's watcher or the RPC handler) decides the gRPC status: the driver accepts either where the model allows both",
+		},
+	})
+}
